@@ -705,8 +705,8 @@ mod ree {
         F: FnMut(V::Native, V::Native, usize) -> Result<V::Native, E>,
     {
         let run_ends = array.run_ends();
-        let logical_start = run_ends.offset();
-        let logical_end = run_ends.offset() + run_ends.len();
+        // `sliced_values` yields run ends relative to the start of the slice, capped at its length
+        let logical_end = run_ends.len();
         let run_ends = run_ends.sliced_values();
 
         let values_slice = array.run_array().values_slice();
@@ -721,7 +721,7 @@ mod ree {
         let mut has_non_null_value = false;
 
         for (run_end, value) in run_ends.zip(values) {
-            let current_run_end = run_end.as_usize().clamp(logical_start, logical_end);
+            let current_run_end = run_end.as_usize();
             let run_length = current_run_end - prev_end;
 
             if let Some(value) = value {
@@ -2085,6 +2085,21 @@ mod tests {
 
         let result = sum_array_checked::<UInt8Type, _>(typed_array).unwrap();
         assert_eq!(result, Some(100));
+    }
+
+    #[test]
+    fn test_ree_sum_array_sliced_mid_run() {
+        let run_array =
+            make_run_array::<Int16Type, Int32Type, _>(&[10, 10, 10, 10, 10, 20, 20, 20, 20, 20]);
+        // Starts and ends inside the second run.
+        let sliced = run_array.slice(6, 2);
+        let typed_array = sliced.downcast::<Int32Array>().unwrap();
+
+        let result = sum_array::<Int32Type, _>(typed_array);
+        assert_eq!(result, Some(40));
+
+        let result = sum_array_checked::<Int32Type, _>(typed_array).unwrap();
+        assert_eq!(result, Some(40));
     }
 
     #[test]
